@@ -204,6 +204,8 @@ def set_step(p, path, value, fmt, mustexist):
             orig_update(parent, parentref, val, value_format, value_tag)
         except Exception as e:  # noqa
             post_text = docenc.canon_doc_text(docenc.encode(p.data)[0])
+            if parent is not None and ent is None:
+                rec["detached"] = True      # the parent object is no longer part of the document (outside the model)
             old0 = None
             if ent is not None and idx is not None:
                 old0 = ent[1][idx][1] if ent[0] == "M" else ent[1][idx]
@@ -492,6 +494,11 @@ CORPUS = [
     script_case("{m: {foo: bar, &n1 x: a}, c: *n1, d: {*n1 : 1, k1: 2}}", [["set", "c", "k1", "DEFAULT"]]),
     script_case("{1: a, &n1 x: b, c: *n1}", [["set", "c", "1", "DEFAULT"]]),
     script_case("{m: {foo: bar, &n1 x: a}, l: [*n1, z]}", [["set", "l[0]", "foo", "DQUOTE"], ["set", "l[0]", "y", "DEFAULT"]]),
+    # thorough tier, round fixer2: the third change addresses a list that the first change detached; the real code then
+    # refuses (the key b of the first mapping is an alias of the node in the detached list, c is a sibling key), the
+    # model does not follow detached parents: must be classified detached-parent, not compared
+    script_case("[{&n1 b: {c: '', k1: b, e: \"dq\"}, x: {e: x, c: 5}, a: *n1, c: 1.5}, [[*n1, &n2 -3], k1, [foo, &n3 c, x], []], bar]",
+                [["set", "([1][0])+([-2][0][-2])", "c", "DEFAULT"]]),
     # former C04 F15 inside a history
     script_case("{a: [1, 2, 3, 4]}", [["del", "(a[2])+(a[0])"], ["set", "a[0]", "9", "DEFAULT"]]),
 ]
